@@ -88,6 +88,7 @@ class Runtime:
         self.on_time_advance = None
         self.final_states = []
         self.final_locks = []
+        self.runaways = []                     # names of threads aborted by the runaway guard
         self.stall_time = 3.0                  # longer than every library timer (1 s waits, ticks)
         self.allow_stall = True
 
@@ -292,6 +293,7 @@ class Runtime:
         if cur is not self.current:
             raise HarnessBug(f"{cur.name} runs without the baton (current={self.current})")
         cur.since_block += 1
+        cur.calls_since_point = 0
         nxt = self._choose(cur, kind, label)
         if nxt is STALL:
             # a long preemption: everything else (timers included) proceeds meanwhile
@@ -331,6 +333,7 @@ class Runtime:
         cur.wait_label = f"{kind}:{label}"
         cur.timed_out = False
         cur.since_block = 0
+        cur.calls_since_point = 0
         nxt = self._choose(cur, kind, label)
         if nxt is cur:
             return not cur.timed_out
